@@ -55,7 +55,8 @@ Inductive regex :=
 | RSeq (a b : regex)               (* ab *)
 | ROpt (a : regex)                 (* a?  greedy *)
 | RStar (p : ascii -> bool)     (* [class]*  greedy *)
-| RPlus (p : ascii -> bool).    (* [class]+  greedy *)
+| RPlus (p : ascii -> bool)     (* [class]+  greedy *)
+| RAlt (a b : regex).           (* a|b : a first, b when a (with what follows) fails *)
 
 (* [class]* then continuation k: longest first, giving back one character at
    a time while k fails *)
@@ -76,6 +77,7 @@ Fixpoint rmatch {A} (r : regex) (s : list ascii) (k : list ascii -> option A) : 
   | ROpt a => match rmatch a s k with Some r => Some r | None => k s end
   | RStar p => star_k p k s
   | RPlus p => match s with c :: s' => if p c then star_k p k s' else None | [] => None end
+  | RAlt a b => match rmatch a s k with Some r => Some r | None => rmatch b s k end
   end.
 
 (* [-+]?[0-9]*\.?[0-9]+(?:[eE][-+]?[0-9]+)? *)
@@ -180,6 +182,114 @@ Definition parse_string (none_ok coinc_ok : bool) (d : string) (pos0 : Cplx Qc)
   impl_parse NumQ none_ok coinc_ok (lex_string d) pos0.
 
 (* ------------------------------------------------------------------ *)
+(* the tokenizer for an arbitrary number pattern; the repaired FLOAT_RE  *)
+(* (everything above is the instance [float_re false])                   *)
+
+(* [-+]?(?:[0-9]+\.?[0-9]*|\.[0-9]+)(?:[eE][-+]?[0-9]+)?  — the SVG number
+   grammar: a trailing dot belongs to the number, so "1.e3" is one number *)
+Definition FLOAT_RE_DOT : regex :=
+  RSeq (ROpt (RCls is_sign))
+ (RSeq (RAlt (RSeq (RPlus is_digit) (RSeq (ROpt (RCls is_dot)) (RStar is_digit)))
+             (RSeq (RCls is_dot) (RPlus is_digit)))
+       (ROpt (RSeq (RCls is_e) (RSeq (ROpt (RCls is_sign)) (RPlus is_digit))))).
+
+(* which FLOAT_RE the code has: false = the pinned one *)
+Definition float_re (dot_ok : bool) : regex := if dot_ok then FLOAT_RE_DOT else FLOAT_RE.
+
+Definition match_re (r : regex) (s : list ascii) : option (list ascii) :=
+  rmatch r s (fun rest => Some rest).
+Fixpoint findall_re_fuel (r : regex) (fuel : nat) (s : list ascii) : list (list ascii) :=
+  match fuel with
+  | O => []
+  | S f =>
+      match s with
+      | [] => []
+      | _ :: s' =>
+          match match_re r s with
+          | Some rest => firstn (length s - length rest) s :: findall_re_fuel r f rest
+          | None => findall_re_fuel r f s'
+          end
+      end
+  end.
+Definition findall_re (r : regex) (s : list ascii) : list (list ascii) :=
+  findall_re_fuel r (length s) s.
+Definition piece_tokens_re (r : regex) (x : list ascii) : list ltok :=
+  match x with
+  | [c] => if is_cmd c then [LCmd c] else []
+  | _ => []
+  end ++ map LNum (findall_re r x).
+Definition tokenize_re (r : regex) (s : list ascii) : list ltok :=
+  flat_map (piece_tokens_re r) (split_cmds s []).
+Definition lex_re (r : regex) (s : list ascii) : list (tok Qc) :=
+  flat_map tok_of_ltok (tokenize_re r s).
+Definition lex_string_re (r : regex) (s : string) : list (tok Qc) :=
+  lex_re r (list_ascii_of_string s).
+Definition parse_string_re (r : regex) (none_ok coinc_ok : bool) (d : string) (pos0 : Cplx Qc)
+  : result (list (seg Qc)) :=
+  impl_parse NumQ none_ok coinc_ok (lex_string_re r d) pos0.
+
+(* ------------------------------------------------------------------ *)
+(* arc flags without separators (the repaired _tokenize_path):
+
+     arc_arg = None
+     for x in COMMAND_RE.split(pathdef):
+         if x in COMMANDS:
+             yield x
+             arc_arg = 0 if x in 'Aa' else None
+         for token in FLOAT_RE.findall(x):
+             if arc_arg is not None:
+                 while arc_arg in (3, 4) and len(token) > 1 and token[0] in '01':
+                     yield token[0]; token = token[1:]; arc_arg += 1
+                 arc_arg = (arc_arg + 1) % 7
+             yield token
+
+   modelled as a pass over the token stream of the plain tokenizer (the state
+   arc_arg is reset by every command letter, so per-piece and per-stream
+   processing coincide) *)
+Definition is_flagchar (c : ascii) : bool := Ascii.eqb c "0" || Ascii.eqb c "1".
+Definition is_arc_letter (c : ascii) : bool := Ascii.eqb c "A" || Ascii.eqb c "a".
+Definition is_flag_index (k : nat) : bool := Nat.eqb k 3 || Nat.eqb k 4.
+
+(* the while loop on one token at argument index k: the tokens yielded (the
+   last one is the remaining token) and the index of that last one *)
+Fixpoint split_flags (fuel : nat) (k : nat) (t : list ascii) : list (list ascii) * nat :=
+  match fuel with
+  | O => ([t], k)
+  | S f =>
+      match t with
+      | c :: (_ :: _) as r =>
+          if is_flag_index k && is_flagchar c
+          then let (l, k') := split_flags f (S k) r in ([c] :: l, k')
+          else ([t], k)
+      | _ => ([t], k)
+      end
+  end.
+
+Fixpoint arc_fix (st : option nat) (l : list ltok) : list ltok :=
+  match l with
+  | [] => []
+  | LCmd c :: r => LCmd c :: arc_fix (if is_arc_letter c then Some O else None) r
+  | LNum t :: r =>
+      match st with
+      | None => LNum t :: arc_fix None r
+      | Some k => let (ts, k') := split_flags (length t) k t in
+                  map LNum ts ++ arc_fix (Some (Nat.modulo (S k') 7)) r
+      end
+  end.
+
+(* the tokenizer in its four variants; (false, false) is the pinned one *)
+Definition tokenize_v (dot_ok arc_ok : bool) (s : list ascii) : list ltok :=
+  let l := tokenize_re (float_re dot_ok) s in
+  if arc_ok then arc_fix None l else l.
+Definition lex_v (dot_ok arc_ok : bool) (s : list ascii) : list (tok Qc) :=
+  flat_map tok_of_ltok (tokenize_v dot_ok arc_ok s).
+Definition lex_string_v (dot_ok arc_ok : bool) (s : string) : list (tok Qc) :=
+  lex_v dot_ok arc_ok (list_ascii_of_string s).
+Definition parse_string_v (dot_ok arc_ok none_ok coinc_ok : bool) (d : string) (pos0 : Cplx Qc)
+  : result (list (seg Qc)) :=
+  impl_parse NumQ none_ok coinc_ok (lex_string_v dot_ok arc_ok d) pos0.
+
+(* ------------------------------------------------------------------ *)
 (* behaviour on tricky inputs, as observed on Python's re (3.x):
    list(Path()._tokenize_path(s))                                      *)
 
@@ -226,4 +336,81 @@ Proof. vm_compute. reflexivity. Qed.
 Example numval_ex2 : Qc_eq_bool (numval (list_ascii_of_string ".5E+1")) (qc 5 1) = true.
 Proof. vm_compute. reflexivity. Qed.
 Example numval_ex3 : Qc_eq_bool (numval (list_ascii_of_string "+007")) (qc 7 1) = true.
+Proof. vm_compute. reflexivity. Qed.
+
+(* ---- the repaired pattern on the same inputs (Python re, 3.x): only the
+   texts "digits." change; only "digits.[eE]digits" changes its value ---- *)
+Definition texts_dot (s : string) : list string :=
+  map (fun t => match t with
+                | LCmd a => String a EmptyString
+                | LNum x => string_of_list_ascii x end)
+      (tokenize_re FLOAT_RE_DOT (list_ascii_of_string s)).
+Example lexd_ex01 : texts_dot "1.2.3" = ["1.2"; ".3"].        Proof. vm_compute. reflexivity. Qed.
+Example lexd_ex02 : texts_dot "-.5-.5" = ["-.5"; "-.5"].      Proof. vm_compute. reflexivity. Qed.
+Example lexd_ex03 : texts_dot "1e5e3" = ["1e5"; "3"].         Proof. vm_compute. reflexivity. Qed.
+Example lexd_ex04 : texts_dot "1.e3" = ["1.e3"].              Proof. vm_compute. reflexivity. Qed.  (* was 1, 3 *)
+Example lexd_ex05 : texts_dot "+-1" = ["-1"].                 Proof. vm_compute. reflexivity. Qed.
+Example lexd_ex06 : texts_dot "1e" = ["1"].                   Proof. vm_compute. reflexivity. Qed.
+Example lexd_ex07 : texts_dot "1e+" = ["1"].                  Proof. vm_compute. reflexivity. Qed.
+Example lexd_ex08 : texts_dot "." = [].                       Proof. vm_compute. reflexivity. Qed.
+Example lexd_ex09 : texts_dot "0 11 2" = ["0"; "11"; "2"].    Proof. vm_compute. reflexivity. Qed.
+Example lexd_ex10 : texts_dot "1." = ["1."].                  Proof. vm_compute. reflexivity. Qed.  (* was 1 *)
+Example lexd_ex11 : texts_dot "..5" = [".5"].                 Proof. vm_compute. reflexivity. Qed.
+Example lexd_ex12 : texts_dot "1e-" = ["1"].                  Proof. vm_compute. reflexivity. Qed.
+Example lexd_ex13 : texts_dot "1e+5" = ["1e+5"].              Proof. vm_compute. reflexivity. Qed.
+Example lexd_ex14 : texts_dot "1E5" = ["1E5"].                Proof. vm_compute. reflexivity. Qed.
+Example lexd_ex15 : texts_dot "--1" = ["-1"].                 Proof. vm_compute. reflexivity. Qed.
+Example lexd_ex16 : texts_dot "1-2" = ["1"; "-2"].            Proof. vm_compute. reflexivity. Qed.
+Example lexd_ex17 : texts_dot ".5.5" = [".5"; ".5"].          Proof. vm_compute. reflexivity. Qed.
+Example lexd_ex18 : texts_dot "1e5.5" = ["1e5"; ".5"].        Proof. vm_compute. reflexivity. Qed.
+Example lexd_ex19 : texts_dot "1 e5" = ["1"; "5"].            Proof. vm_compute. reflexivity. Qed.
+Example lexd_ex20 : texts_dot "1.5e" = ["1.5"].               Proof. vm_compute. reflexivity. Qed.
+Example lexd_ex21 : texts_dot "e5" = ["5"].                   Proof. vm_compute. reflexivity. Qed.
+Example lexd_ex22 : texts_dot "-" = [].                       Proof. vm_compute. reflexivity. Qed.
+Example lexd_ex23 : texts_dot "M1 2L3-4z" = ["M"; "1"; "2"; "L"; "3"; "-4"; "z"].
+Proof. vm_compute. reflexivity. Qed.
+Example lexd_ex24 : texts_dot "m.5.5e1E2" = ["m"; ".5"; ".5e1"; "2"].
+Proof. vm_compute. reflexivity. Qed.
+Example lexd_ex25 : texts_dot "M0 0 A1,1 0 11 2,0" = ["M"; "0"; "0"; "A"; "1"; "1"; "0"; "11"; "2"; "0"].
+Proof. vm_compute. reflexivity. Qed.
+Example lexd_ex27 : texts_dot "1.e" = ["1."].                 Proof. vm_compute. reflexivity. Qed.
+Example lexd_ex28 : texts_dot "1..5" = ["1."; ".5"].          Proof. vm_compute. reflexivity. Qed.
+Example lexd_ex29 : texts_dot "1.-2" = ["1."; "-2"].          Proof. vm_compute. reflexivity. Qed.
+Example lexd_ex30 : texts_dot "1.5." = ["1.5"].               Proof. vm_compute. reflexivity. Qed.
+Example lexd_ex31 : texts_dot "1.E+2.5" = ["1.E+2"; ".5"].    Proof. vm_compute. reflexivity. Qed.  (* was 1, +2.5 *)
+Example lexd_ex32 : texts_dot "-.e5" = ["5"].                 Proof. vm_compute. reflexivity. Qed.
+Example numval_ex4 : Qc_eq_bool (numval (list_ascii_of_string "1.e3")) (qc 1000 1) = true.
+Proof. vm_compute. reflexivity. Qed.
+Example numval_ex5 : Qc_eq_bool (numval (list_ascii_of_string "-12.")) (qc (-12) 1) = true.
+Proof. vm_compute. reflexivity. Qed.
+
+(* ---- the arc-flag repair on Python's outputs (patched _tokenize_path) ---- *)
+Definition texts_v (dot_ok arc_ok : bool) (s : string) : list string :=
+  map (fun t => match t with
+                | LCmd a => String a EmptyString
+                | LNum x => string_of_list_ascii x end)
+      (tokenize_v dot_ok arc_ok (list_ascii_of_string s)).
+Example lexa_ex1 : texts_v true true "M0 0 A1,1 0 11 2,0"
+                   = ["M"; "0"; "0"; "A"; "1"; "1"; "0"; "1"; "1"; "2"; "0"].
+Proof. vm_compute. reflexivity. Qed.
+Example lexa_ex2 : texts_v true true "M0 0 a1,1 0 012,0"
+                   = ["M"; "0"; "0"; "a"; "1"; "1"; "0"; "0"; "1"; "2"; "0"].
+Proof. vm_compute. reflexivity. Qed.
+Example lexa_ex3 : texts_v true true "M0 0a2.5 2.5 0 00.5-.5"
+                   = ["M"; "0"; "0"; "a"; "2.5"; "2.5"; "0"; "0"; "0"; ".5"; "-.5"].
+Proof. vm_compute. reflexivity. Qed.
+Example lexa_ex4 : texts_v false true "M0 0 A1,1 0 1 1 2,0 1,1 0 0110,5"
+                   = ["M"; "0"; "0"; "A"; "1"; "1"; "0"; "1"; "1"; "2"; "0";
+                      "1"; "1"; "0"; "0"; "1"; "10"; "5"].
+Proof. vm_compute. reflexivity. Qed.
+Example lexa_ex5 : texts_v true true "M0 0 A1,1 0 1.0 1 2,0"     (* "1.0" is flag 1 then .0 *)
+                   = ["M"; "0"; "0"; "A"; "1"; "1"; "0"; "1"; ".0"; "1"; "2"; "0"].
+Proof. vm_compute. reflexivity. Qed.
+Example lexa_ex6 : texts_v true true "M0 0 L10 11 A 10 11 100 1 0 10 11.5"   (* only flags are split *)
+                   = ["M"; "0"; "0"; "L"; "10"; "11"; "A"; "10"; "11"; "100"; "1"; "0"; "10"; "11.5"].
+Proof. vm_compute. reflexivity. Qed.
+Example lexa_ex7 : texts_v true true "M0 0 A1,1 0 10 5 5"
+                   = ["M"; "0"; "0"; "A"; "1"; "1"; "0"; "1"; "0"; "5"; "5"].
+Proof. vm_compute. reflexivity. Qed.
+Example lexa_ex8 : texts_v false false "M0 0 A1,1 0 11 2,0" = texts "M0 0 A1,1 0 11 2,0".
 Proof. vm_compute. reflexivity. Qed.
